@@ -13,7 +13,7 @@ import os
 import shutil
 import subprocess
 
-from common import GARDEN, SPEC, Check, ToolError, pmap, scratch_dir, tlc, tlc_ok, vacuity, write_ndjson
+from common import GARDEN, SPEC, Check, ToolError, limited, pmap, scratch_dir, tlc, tlc_ok, vacuity, write_ndjson
 import gen_prog
 import refrun
 
@@ -76,11 +76,8 @@ def run_one(job):
             f.write(src)
         args = [GARDEN, "playground-run", "p.gdn"] if mode == "playground" else [GARDEN, "sandboxed-test", "p.gdn", str(off)]
         try:
-            def limit_memory():
-                import resource
-                # a runaway allocation must fail fast instead of exhausting the machine
-                resource.setrlimit(resource.RLIMIT_AS, (4 << 30, 4 << 30))
-            p = subprocess.run(args, cwd=d, input=b"", stdout=subprocess.PIPE, stderr=subprocess.PIPE, timeout=WALL, preexec_fn=limit_memory)
+            # a runaway allocation must fail fast instead of exhausting the machine
+            p = subprocess.run(limited(args, gb=4), cwd=d, input=b"", stdout=subprocess.PIPE, stderr=subprocess.PIPE, timeout=WALL)
             out = p.stdout.decode("utf-8", "replace")
             last = out.strip().split("\n")[-1] if out.strip() else ""
             return {"rc": p.returncode, "out": out[-400:], "last": last, "err": p.stderr.decode("utf-8", "replace")[-300:], "timeout": False}
